@@ -10,7 +10,9 @@ from . import replay
 RUNNER = os.path.join(replay.HERE, "runner", "run_roundtrip.py")
 STRS = ["plain", "two words", 'say "hi"', "it's", "C:\\temp\\new.csv", "back\\slash", "a,b=c(d)[e]#f:g", "caf\u00e9", "\u4e2d", " padded ", "", "tab\there",
         "ends with backslash\\", "quote at end\"", "line\nbreak", "007", "1.5", "true", "N0", "emoji \U0001F600 tree \U0001F333", "\U0001D4B3 math",
-        "\u00ff\u0100 latin-1 edge", "\\u0041 literal escape text", "\\n not a newline"]
+        "\u00ff\u0100 latin-1 edge", "\\u0041 literal escape text", "\\n not a newline",
+        # characters str.splitlines() treats as line ends: ordinary content inside a quoted string
+        "form\x0cfeed", "vt\x0bhere", "nel\x85x", "ls\u2028ps\u2029", "cr\ralone", "fs\x1cgs\x1drs\x1e"]
 NUMS = [0, 7, -3, 1.5, -0.25, 1e-05, 1.3e+20, 123456789.125, 5e-324, 1e22, 2.0, 100000000000000000000]
 
 
@@ -97,6 +99,10 @@ def judge(case, o):
         return [("harness-error", str(o)[:300])]
     if "to_string_error" in o:
         return [("roundtrip", "to_string raised %s" % o["to_string_error"])]
+    if "to_file_error" in o:
+        return [("roundtrip", "to_file raised %s" % o["to_file_error"])]
+    if o.get("to_file_same") and not all(o["to_file_same"]):
+        return [("roundtrip", "to_file (%s) wrote other text than to_string returns: %r vs %r" % ("file object" if not o["to_file_same"][0] else "path", o.get("to_file_text", "")[:120], o.get("text", "")[:120]))]
     if "reload_error" in o:
         return [("roundtrip", "the serialised text does not load: %s; text: %r" % (o["reload_error"], o.get("text", "")[:160]))]
     if o["before"] != o["after"]:
